@@ -7,9 +7,10 @@ mod tour_limits_test;
 use std::cmp::Ordering;
 
 use super::*;
+use crate::construction::clustering::vicinity::ClusterInfoDimension;
 use crate::construction::enablers::*;
 use crate::models::common::{Distance, Duration};
-use crate::models::problem::{Actor, TransportCost};
+use crate::models::problem::{Actor, Single, TransportCost};
 
 /// A function which returns activity size limit for a given actor.
 pub type ActivitySizeResolver = Arc<dyn Fn(&Actor) -> Option<usize> + Sync + Send>;
@@ -63,10 +64,20 @@ impl FeatureConstraint for ActivityLimitConstraint {
         match move_ctx {
             MoveContext::Route { route_ctx, job, .. } => {
                 (self.limit_fn)(route_ctx.route().actor.as_ref()).and_then(|limit| {
-                    let tour_activities = route_ctx.route().tour.job_activity_count();
+                    // NOTE a cluster is visited as one activity, but every job of it becomes an activity of the tour
+                    let cluster_size = |single: &Single| single.dimens.get_cluster_info().map_or(1, |info| info.len().max(1));
+
+                    let tour_activities = route_ctx.route().tour.job_activity_count()
+                        + route_ctx
+                            .route()
+                            .tour
+                            .all_activities()
+                            .filter_map(|activity| activity.job.as_ref())
+                            .map(|single| cluster_size(single) - 1)
+                            .sum::<usize>();
 
                     let job_activities = match job {
-                        Job::Single(_) => 1,
+                        Job::Single(single) => cluster_size(single),
                         Job::Multi(multi) => multi.jobs.len(),
                     };
 
